@@ -21,6 +21,9 @@ Paths == PathsUpTo(Depth)
 \* component alphabets
 CompsQ == { <<32>>, <<45>>, <<46, 97>>, <<97>>, <<97, 46, 98>>, <<97, 98>>, <<98>>, <<195, 169>>, <<195, 169, 97>>, <<122>> }
 CompsT == { <<32>>, <<46, 97>>, <<97>>, <<97, 98>>, <<195, 169>>, <<122>> }
+\* names that extend one another with a byte below '/' ("a", "a.b", "a-", "a b") and one above ("ab"):
+\* at depth 3 these separate component-wise comparison from comparison of the directory *strings*
+CompsP == { <<97>>, <<97, 46, 98>>, <<97, 45>>, <<97, 32, 98>>, <<97, 98>> }
 
 Irreflexive == ~Less(p, p)
 Asymmetric  == \A q \in Paths : ~(Less(p, q) /\ Less(q, p))
